@@ -32,6 +32,10 @@ type c12NspCase struct {
 	Clients   int     `json:"clients"`
 	// a broadcast is issued this many ms after the clients start connecting (while slow middlewares still run)
 	BroadcastAtMs int `json:"broadcast_at_ms"`
+	// connection state recovery enabled on the server (middlewares are skipped for RECOVERED sockets only), and clients whose CONNECT
+	// claims a session that does not exist ({pid, offset} in the auth payload): not recovered, so the chain applies in full
+	Recovery     bool `json:"recovery"`
+	ClaimSession bool `json:"claim_session"`
 }
 
 type c12Rejection struct {
@@ -60,7 +64,7 @@ func evalC12Nsp(c c12NspCase) (f *Failure, nontrivial bool) {
 			res = f
 		}
 	}
-	msg := runRig(rigOpts{}, func(r *rig) {
+	msg := runRig(rigOpts{Recovery: c.Recovery}, func(r *rig) {
 		var mu sync.Mutex
 		nsp := r.Server.Of(c.Namespace)
 		invoked := map[sio.SocketID][]int{} // server socket id -> middleware indices in invocation order
@@ -130,10 +134,17 @@ func evalC12Nsp(c c12NspCase) (f *Failure, nontrivial bool) {
 			clients[i] = st
 			m := r.manager(c01Transports(c.Transport), nil)
 			s := m.Socket(c.Namespace, nil)
+			if c.ClaimSession {
+				s.SetAuth(map[string]any{"pid": fmt.Sprintf("no-such-session-%d", i), "offset": "zzzz"})
+			}
 			st.sock = s
 			s.OnConnect(func() { mu.Lock(); st.connected++; mu.Unlock() })
 			s.OnConnectError(func(err any) { mu.Lock(); st.connectErrs = append(st.connectErrs, err); mu.Unlock() })
-			s.OnEvent("bc", func(tag string) { mu.Lock(); st.got = append(st.got, tag); mu.Unlock() })
+			s.OnEvent("bc", func(tag string, _ int) { // (no trailing string parameter: known finding KF-C01-1 with recovery enabled)
+				mu.Lock()
+				st.got = append(st.got, tag)
+				mu.Unlock()
+			})
 		}
 		for _, st := range clients {
 			st.sock.Connect()
@@ -149,10 +160,10 @@ func evalC12Nsp(c c12NspCase) (f *Failure, nontrivial bool) {
 			if anyInChain {
 				nontrivial = true
 			}
-			nsp.Emit("bc", "early")
+			nsp.Emit("bc", "early", 0)
 		}
 		settle(10 * time.Second)
-		nsp.Emit("bc", "late")
+		nsp.Emit("bc", "late", 0)
 		settle(time.Second)
 
 		mu.Lock()
@@ -277,14 +288,15 @@ func evalC12Nsp(c c12NspCase) (f *Failure, nontrivial bool) {
 func TestC12_NamespaceChain(t *testing.T) {
 	setT(t)
 	defer startWatchdog(t, 60*time.Second)()
-	ev := NewEv(t, "C12", c12CheckNsp, "rapid on the virtual-time rig: chains of 0..5 namespace middlewares, each accept / reject with error / string / struct, optionally slow (virtual delay), on / and a custom "+
+	ev := NewEv(t, "C12", c12CheckNsp, "rapid on the virtual-time rig (connection state recovery off / on, clients optionally claiming a session that does not exist): chains of 0..5 namespace middlewares, each accept / reject with error / string / struct, optionally slow (virtual delay), on / and a custom "+
 		"namespace, 1..4 clients connecting concurrently, a broadcast issued while sockets are still in the chain; oracle: invocation indices 0..j in order (j = first rejecter), inside every middleware the "+
 		"socket is not listed, in no room, Connected()==false; all accept => connect once, listed, own room, connection handler once, reachable; reject => connect_error carrying exactly that rejection, "+
 		"no connect, no handler, nothing listed or in a room; non-trivial = chain >= 2 with a rejection at index >= 1, or a broadcast issued while a socket was in the chain")
 	rapidGuard(t, "C12", c12CheckNsp)
 	runRapid(t, c12CheckNsp, tierN(3000, 80000), func(t *rapid.T) {
 		c := c12NspCase{Namespace: rapid.SampledFrom([]string{"/", "/adm"}).Draw(t, "nsp"), Transport: rapid.SampledFrom([]string{"polling", "websocket"}).Draw(t, "transport"),
-			Clients: rapid.IntRange(1, 4).Draw(t, "clients")}
+			Clients: rapid.IntRange(1, 4).Draw(t, "clients"), Recovery: rapid.IntRange(0, 2).Draw(t, "recovery") == 0}
+		c.ClaimSession = c.Recovery && rapid.Bool().Draw(t, "claim")
 		n := rapid.IntRange(0, 5).Draw(t, "chain")
 		slow := rapid.Bool().Draw(t, "slow")
 		for i := 0; i < n; i++ {
@@ -318,6 +330,7 @@ type c12EventCase struct {
 	Variadic  bool   `json:"variadic"`  // middleware declared func(string, ...any) error instead of func(string, []any) error
 	Signature string `json:"signature"` // string-first | int-first | none | string-ack | binary
 	Events    int    `json:"events"`
+	Handlers  int    `json:"handlers"` // handlers registered for the event: 1 = OnEvent; 2 = OnEvent twice; 3 = OnEvent twice + OnceEvent (0 is read as 1)
 }
 
 func evalC12Event(c c12EventCase) (f *Failure, nontrivial bool) {
@@ -373,17 +386,23 @@ func evalC12Event(c c12EventCase) (f *Failure, nontrivial bool) {
 				order = append(order, "handler")
 				mu.Unlock()
 			}
-			switch c.Signature {
-			case "string-first":
-				s.OnEvent("ev", func(a string, b int) { ran(a, b) })
-			case "int-first":
-				s.OnEvent("ev", func(a int, b string) { ran(a, b) })
-			case "none":
-				s.OnEvent("ev", func() { ran() })
-			case "string-ack":
-				s.OnEvent("ev", func(a string, ack func(string)) { ran(a); ack("ok:" + a) })
-			case "binary":
-				s.OnEvent("ev", func(a Bin, b string) { ran(string(a), b) })
+			for h := 0; h < max(c.Handlers, 1); h++ {
+				on := s.OnEvent
+				if h == 2 {
+					on = s.OnceEvent
+				}
+				switch c.Signature {
+				case "string-first":
+					on("ev", func(a string, b int) { ran(a, b) })
+				case "int-first":
+					on("ev", func(a int, b string) { ran(a, b) })
+				case "none":
+					on("ev", func() { ran() })
+				case "string-ack":
+					on("ev", func(a string, ack func(string)) { ran(a); ack("ok:" + a) })
+				case "binary":
+					on("ev", func(a Bin, b string) { ran(string(a), b) })
+				}
 			}
 			return nil
 		})
@@ -417,9 +436,15 @@ func evalC12Event(c c12EventCase) (f *Failure, nontrivial bool) {
 		if firstReject >= 0 {
 			wantMW = firstReject + 1
 		}
-		if len(mwSeen) != wantMW*c.Events {
-			res = fail("event-chain-runs", fmt.Sprintf("%d events through a chain of %d (first rejection %d): middlewares were invoked %d times, want %d (errors %v)",
-				c.Events, len(c.Chain), firstReject, len(mwSeen), wantMW*c.Events, errs))
+		// (with several handlers for one event the chain may run once per packet or once per handler: the property does not say)
+		H := max(c.Handlers, 1)
+		wantRuns := c.Events * min(H, 2) // OnEvent handlers run for every event ...
+		if H == 3 && c.Events > 0 {
+			wantRuns++ // ... the OnceEvent handler for one
+		}
+		if len(mwSeen) < wantMW*c.Events || len(mwSeen) > wantMW*c.Events*H || (wantMW > 0 && len(mwSeen)%wantMW != 0) {
+			res = fail("event-chain-runs", fmt.Sprintf("%d events (%d handlers each) through a chain of %d (first rejection %d): middlewares were invoked %d times, want %d..%d (errors %v)",
+				c.Events, H, len(c.Chain), firstReject, len(mwSeen), wantMW*c.Events, wantMW*c.Events*H, errs))
 			return
 		}
 		for _, s := range mwSeen {
@@ -438,13 +463,13 @@ func evalC12Event(c c12EventCase) (f *Failure, nontrivial bool) {
 				res = fail("rejected-event-not-handled", fmt.Sprintf("middleware %d rejected every event but the handler ran %d times", firstReject, handlerRuns))
 				return
 			}
-			if len(errs) != c.Events {
-				res = fail("rejected-event-reported", fmt.Sprintf("%d events were rejected, the socket's error handlers fired %d times", c.Events, len(errs)))
+			if len(errs) < c.Events || len(errs) > c.Events*H {
+				res = fail("rejected-event-reported", fmt.Sprintf("%d events were rejected (%d handlers each), the socket's error handlers fired %d times", c.Events, H, len(errs)))
 				return
 			}
 		} else {
-			if handlerRuns != c.Events {
-				res = fail("accepted-event-handled-once", fmt.Sprintf("%d accepted events, the handler ran %d times (errors %v)", c.Events, handlerRuns, errs))
+			if handlerRuns != wantRuns {
+				res = fail("accepted-event-handled-once", fmt.Sprintf("%d accepted events with %d handlers registered: handlers ran %d times, want %d (errors %v)", c.Events, H, handlerRuns, wantRuns, errs))
 				return
 			}
 			if c.Signature == "string-ack" && acks != c.Events {
@@ -453,6 +478,9 @@ func evalC12Event(c c12EventCase) (f *Failure, nontrivial bool) {
 			}
 			// every middleware of an event runs before its handler
 			pending := 0
+			if H > 1 {
+				order = nil // the interleaving of several handlers' chains is not prescribed
+			}
 			for _, o := range order {
 				if o == "handler" {
 					if pending < len(c.Chain) {
@@ -482,13 +510,13 @@ func TestC12_EventChain(t *testing.T) {
 	setT(t)
 	defer startWatchdog(t, 60*time.Second)()
 	ev := NewEv(t, "C12", c12CheckEvent, "rapid on the rig: chains of 0..3 per-socket event middlewares (ServerSocket.Use, both accepted declarations), accept/reject, event signatures {string first, "+
-		"non-string first, no arguments, with ack function, binary first}, 1..4 events; oracle: every middleware up to the first rejecter sees the emitted event name and the arguments, before the handler; "+
-		"rejected => handler never runs and the error handlers fire once per event; accepted => handler exactly once (ack returns); "+
+		"non-string first, no arguments, with ack function, binary first}, 1..3 handlers registered for the event (OnEvent, OnEvent again, OnceEvent), 1..4 events; oracle: every middleware up to the first rejecter sees the emitted event name and the arguments, before the handler; "+
+		"rejected => no handler runs and the error handlers fire (once per event or per handler); accepted => every On handler once per event, the Once handler once (ack returns); "+
 		"non-trivial = a chain >= 1 on an event whose first argument is not a string")
 	rapidGuard(t, "C12", c12CheckEvent)
 	runRapid(t, c12CheckEvent, tierN(2000, 40000), func(t *rapid.T) {
 		c := c12EventCase{Transport: rapid.SampledFrom([]string{"polling", "websocket"}).Draw(t, "transport"), Variadic: rapid.Bool().Draw(t, "variadic"),
-			Signature: rapid.SampledFrom([]string{"string-first", "int-first", "none", "string-ack", "binary"}).Draw(t, "signature"), Events: rapid.IntRange(1, 4).Draw(t, "events")}
+			Signature: rapid.SampledFrom([]string{"string-first", "int-first", "none", "string-ack", "binary"}).Draw(t, "signature"), Events: rapid.IntRange(1, 4).Draw(t, "events"), Handlers: rapid.SampledFrom([]int{1, 1, 2, 3}).Draw(t, "handlers")}
 		for i, n := 0, rapid.IntRange(0, 3).Draw(t, "chain"); i < n; i++ {
 			c.Chain = append(c.Chain, rapid.IntRange(0, 3).Draw(t, "accept") > 0)
 		}
